@@ -36,6 +36,8 @@ cpdef Data _br_term_data(Data A, double[:, ::1] spectrum,
     cdef Data S, I, AS, AST, out, C
     cdef type cls = type(A)
 
+    # Same index convention as in `_br_term_dense`.
+    A = A.transpose()
     S = _data.to(cls, _data.mul(_data.Dense(spectrum), 0.5))
     I = _data.identity[cls](nrows)
     AS = _data.multiply(A, S)
@@ -79,6 +81,10 @@ cpdef Dense _br_term_dense(Data A, double[:, ::1] spectrum,
     cdef Dense out
     cdef double complex[::1, :] out_array
 
+    # R_abcd (which maps rho_cd to rho_ab) is stored at [a*n + b, c*n + d], the
+    # column-stacked index of the transposed matrices: work with A^T so that the
+    # tensor acts on column-stacked operators like every other superoperator.
+    A = A.transpose()
     if type(A) is Dense:
         A_mat = A.as_ndarray()
     else:
@@ -132,6 +138,8 @@ cpdef CSR _br_term_sparse(Data A, double[:, :] spectrum,
     cdef vector[idxint] coo_rows, coo_cols
     cdef vector[double complex] coo_data
 
+    # Same index convention as in `_br_term_dense`.
+    A = A.transpose()
     if type(A) is Dense:
         A_mat = A.as_ndarray()
     else:
@@ -352,6 +360,8 @@ cpdef Data _br_cterm_data(Data A, Data B, double[:, ::1] spectrum,
     cdef Data S, I, P1, P2, P3, P4
     cdef type cls = type(A)
 
+    # Same index convention as in `_br_term_dense`: swap and transpose.
+    A, B = B.transpose(), A.transpose()
     S = _data.to(cls, _data.mul(_data.Dense(spectrum), 0.5))
     I = _data.identity[cls](nrows)
 
@@ -395,6 +405,8 @@ cpdef Dense _br_cterm_dense(Data A, Data B, double[:, ::1] spectrum,
     cdef Dense out
     cdef double complex[::1, :] out_array
 
+    # Same index convention as in `_br_term_dense`: swap and transpose.
+    A, B = B.transpose(), A.transpose()
     if type(A) is Dense:
         A_mat = A.as_ndarray()
     else:
@@ -452,6 +464,8 @@ cpdef CSR _br_cterm_sparse(Data A, Data B, double[:, :] spectrum,
     cdef vector[idxint] coo_rows, coo_cols
     cdef vector[double complex] coo_data
 
+    # Same index convention as in `_br_term_dense`: swap and transpose.
+    A, B = B.transpose(), A.transpose()
     if type(A) is Dense:
         A_mat = A.as_ndarray()
     else:
